@@ -567,6 +567,8 @@ fn main() {
         c.origin = origin;
         cases.push(c);
     }
+    // directed (minimal) cases first, so that the replay file of a signature holds the smallest witness
+    cases.sort_by_key(|c| !c.origin.starts_with("directed"));
     let grid_n = cases.len();
     let n_random = run.tier.pick(3_000, 60_000);
     let mut rng = Rng::new(run.seed, "c15");
